@@ -236,6 +236,9 @@ type Hist struct {
 	force           *Node // picks go to this container (sandwich)
 	forceNeedle     *MVal
 	hintIndex       int
+	prevDirty       map[int]bool // what the latest mutating operation was allowed to change
+	lastPath        []seg        // path of the latest GetTF
+	repeatPath      []seg
 	natives         []*Native
 	byPtr           map[uintptr]*Node
 	rel             map[[2]int]string // relation between two heap citizens (node IDs; natives use negative IDs)
@@ -270,6 +273,35 @@ func (h *Hist) fail(oracle, where string, owners []string, msg string) {
 		return
 	}
 	h.dead = true
+	if sub := h.last; sub != nil && len(h.dirty) == 0 && !h.prevDirty[sub.ID] && (oracle == "result" || oracle == "unexpected-panic" || oracle == "panic-missing") {
+		// an observer is wrong about a container that the latest mutation did not touch: when what was touched is a clone, a
+		// derived result or a native export of it (or the other way round), the independence clause of C08 / C09 / C13 is what
+		// broke — the observer merely shows it (e.g. a summary or a listing shared between the two and updated through one)
+		ids := make([]int, 0, len(h.prevDirty))
+		for d := range h.prevDirty {
+			ids = append(ids, d)
+		}
+		sort.Ints(ids)
+		add := func(p string) {
+			if !contains(owners, p) {
+				owners = append(append([]string(nil), owners...), p)
+			}
+		}
+		for _, d := range ids {
+			if h.cloneRelated(sub.ID, d) {
+				add("C08")
+				continue
+			}
+			if rel, ok := h.rel[[2]int{sub.ID, d}]; ok {
+				switch {
+				case strings.HasPrefix(rel, "derived"):
+					add("C09")
+				case strings.HasPrefix(rel, "native"):
+					add("C13")
+				}
+			}
+		}
+	}
 	h.fails = append(h.fails, Failure{Oracle: oracle, Sig: owners[0] + "/" + oracle + "/" + where, Props: owners, Msg: msg, Step: h.step})
 	h.trace = append(h.trace, fmt.Sprintf("%d: !! %s [%s]: %s", h.step, oracle, strings.Join(owners, ","), msg))
 }
